@@ -860,8 +860,7 @@ theorem abs_update (spec : MsgSpec) (o o' : MsgObj) (id : Nat) (f : Field) (x : 
 theorem clean_update (spec : MsgSpec) (o o' : MsgObj) (id : Nat) (f : Field) (x : FieldObj)
     (hc : o.Clean spec) (hf : spec.fieldOf id = some f) (hx : f.Clean x)
     (hfields : o'.fields = setId id x o.fields)
-    (hpres : ∀ j, o'.present.contains j = (j == id || o.present.contains j))
-    (hcached : o'.cachedBitmap = o.cachedBitmap) : o'.Clean spec := by
+    (hpres : ∀ j, o'.present.contains j = (j == id || o.present.contains j)) : o'.Clean spec := by
   obtain ⟨h1, h2, h3⟩ := hc
   refine ⟨?_, ?_, ?_⟩
   · intro i hi
@@ -871,8 +870,7 @@ theorem clean_update (spec : MsgSpec) (o o' : MsgObj) (id : Nat) (f : Field) (x 
     · subst hid; right; simp [hf]
     · have hm : o.present.contains i = true := by simpa [hid] using this.symm
       exact h1 i (List.contains_iff_mem.mp hm)
-  · intro hcb
-    rw [hpres 1, h2 (hcached ▸ hcb)]; simp
+  · rw [hpres 1, h2]; simp
   · intro j g hg
     unfold MsgObj.get
     rw [hfields, lookupId_setId, hpres j]
@@ -906,7 +904,7 @@ theorem clean_mark1 (spec : MsgSpec) (o o' : MsgObj) (hc : o.Clean spec) (hfield
     · left; exact hid
     · have hm : o.present.contains i = true := by simpa [hid] using this.symm
       exact h1 i (List.contains_iff_mem.mp hm)
-  · intro _; rw [hpres 1]; simp
+  · rw [hpres 1]; simp
   · intro j g hg
     have hj := fieldOf_ne_one hg
     unfold MsgObj.get
@@ -921,31 +919,59 @@ theorem abs_same (spec : MsgSpec) (o o' : MsgObj) (hfields : o'.fields = o.field
   funext j; unfold MsgObj.abs MsgObj.get; rw [hfields, hpres]
 
 theorem clean_same (spec : MsgSpec) (o o' : MsgObj) (hc : o.Clean spec) (hfields : o'.fields = o.fields)
-    (hpres : o'.present = o.present) (hcached : o'.cachedBitmap = true → o.cachedBitmap = true) :
-    o'.Clean spec := by
+    (hpres : o'.present = o.present) : o'.Clean spec := by
   obtain ⟨h1, h2, h3⟩ := hc
-  refine ⟨by rw [hpres]; exact h1, fun hcb => by rw [hpres]; exact h2 (hcached hcb), ?_⟩
+  refine ⟨by rw [hpres]; exact h1, by rw [hpres]; exact h2, ?_⟩
   intro j g hg
   unfold MsgObj.get; rw [hfields, hpres]; exact h3 j g hg
 
-/-- `m.bitmap()` seen abstractly: the bitmap field is marked, nothing else changes -/
+/-- the bitmap field of a clean message is present: marking it changes nothing -/
+theorem abs_set1 (spec : MsgSpec) (o : MsgObj) (hc : o.Clean spec) :
+    (o.abs spec).set 1 bitmapMark = o.abs spec := by
+  funext j
+  have h1 : 1 ∈ o.present := List.contains_iff_mem.mp hc.2.1
+  unfold AbsState.set MsgObj.abs
+  by_cases hj : j = 1
+  · subst hj; simp [h1]
+  · simp [hj]
+
+/-- `m.bitmap()` on a clean message: fields and marked ids stay, the bitmap is cached -/
 theorem touchBitmap_spec (spec : MsgSpec) (o : MsgObj) (hc : o.Clean spec) :
     (o.touchBitmap spec).fields = o.fields ∧
-    (∀ j, (o.touchBitmap spec).present.contains j = (j == 1 || o.present.contains j)) ∧
+    (∀ j, (o.touchBitmap spec).present.contains j = o.present.contains j) ∧
     (o.touchBitmap spec).cachedBitmap = true := by
+  have h1 : 1 ∈ o.present := List.contains_iff_mem.mp hc.2.1
   by_cases hcb : o.cachedBitmap = true
   · have : o.touchBitmap spec = o := by simp [MsgObj.touchBitmap, hcb]
     rw [this]
-    refine ⟨rfl, fun j => ?_, hcb⟩
-    have h1 : 1 ∈ o.present := List.contains_iff_mem.mp (hc.2.1 hcb)
-    by_cases hj : j = 1
-    · subst hj; simp [h1]
-    · simp [hj]
+    exact ⟨rfl, fun _ => rfl, hcb⟩
   · have : o.touchBitmap spec =
         { o with cachedBitmap := true, present := markId 1 o.present, bitmap := spec.zeroBitmap } := by
       simp [MsgObj.touchBitmap, hcb]
     rw [this]
-    exact ⟨rfl, fun j => markId_contains 1 j o.present, rfl⟩
+    refine ⟨rfl, fun j => ?_, rfl⟩
+    show (markId 1 o.present).contains j = o.present.contains j
+    rw [markId_contains]
+    by_cases hj : j = 1
+    · subst hj; simp [h1]
+    · simp [hj]
+
+/-- an object with the same fields and the same marked ids (as a set) has the same abstract
+state and is clean alike -/
+theorem abs_same_set (spec : MsgSpec) (o o' : MsgObj) (hfields : o'.fields = o.fields)
+    (hpres : ∀ j, o'.present.contains j = o.present.contains j) : o'.abs spec = o.abs spec := by
+  funext j; unfold MsgObj.abs MsgObj.get; rw [hfields, hpres j]
+
+theorem clean_same_set (spec : MsgSpec) (o o' : MsgObj) (hc : o.Clean spec) (hfields : o'.fields = o.fields)
+    (hpres : ∀ j, o'.present.contains j = o.present.contains j) : o'.Clean spec := by
+  obtain ⟨h1, h2, h3⟩ := hc
+  refine ⟨?_, by rw [hpres 1]; exact h2, ?_⟩
+  · intro i hi
+    have := hpres i
+    rw [List.contains_iff_mem.mpr hi] at this
+    exact h1 i (List.contains_iff_mem.mp this.symm)
+  · intro j g hg
+    unfold MsgObj.get; rw [hfields, hpres j]; exact h3 j g hg
 
 end Iso8583
 
